@@ -151,7 +151,7 @@ func c06(c *Ctx) {
 			after := p.Events[storeIdx].NLits
 			neg := hasLit(p, len(p.Lits), false, func(t *core.Term) bool {
 				z, isC := t.Args1Int()
-				return t.Kind == core.KLt && t.Args[0] == sum && isC && z == 0
+				return t.Kind == core.KLt && isW(p.X, sum)(t.Args[0]) && isC && z == 0
 			})
 			if lo, has := p.X.Lower(sum); has && lo >= 0 {
 				neg = true // the sum is provably non-negative on this path
@@ -165,7 +165,7 @@ func c06(c *Ctx) {
 					continue
 				}
 				// !(limit < sum)
-				if _, isL := fieldLoad(l.T.Args[0], rd.readLimit); isL && l.T.Args[1] == sum {
+				if _, isL := fieldLoad(l.T.Args[0], rd.readLimit); isL && isW(p.X, sum)(l.T.Args[1]) {
 					limOK = true
 				}
 			}
@@ -186,7 +186,7 @@ func c06(c *Ctx) {
 		exceeded := false
 		if sum != nil {
 			for _, l := range p.Lits {
-				if l.T.Kind == core.KLt && l.Pos && l.T.Args[1] == sum {
+				if l.T.Kind == core.KLt && l.Pos && isW(p.X, sum)(l.T.Args[1]) {
 					if _, isL := fieldLoad(l.T.Args[0], rd.readLimit); isL {
 						exceeded = true
 					}
